@@ -5,7 +5,6 @@ import (
 	"math"
 	"math/big"
 	"os"
-	"os/exec"
 	"regexp"
 	"strconv"
 	"strings"
@@ -181,7 +180,7 @@ func runC20(o *Options) *Result {
 	_ = os.MkdirAll(dir, 0o755)
 	file := dir + "/cases.v"
 	_ = os.WriteFile(file, []byte(sb.String()), 0o644)
-	out, err := exec.Command("timeout", "1200", "coqc", "-Q", o.CoqDir, "DT", "-Q", dir, "RC", file).CombinedOutput()
+	out, err := coqcCmd("1200", "-Q", o.CoqDir, "DT", "-Q", dir, "RC", file).CombinedOutput()
 	if err != nil {
 		res.InfraError = fmt.Sprintf("coqc on %s: %v\n%s", file, err, tail(string(out), 1200))
 		return res
@@ -459,6 +458,55 @@ func runArith(o *Options, res *Result, rng *RNG) {
 			What:   fmt.Sprintf("%s with a=%v (%s) b=%v (%s): prints %q (%s %s) but %s on the float64 values is %v", src, va, ca.Kind, vb, cb.Kind, obs.Out, obs.ErrClass(), obs.Err, op.Name, strconv.FormatFloat(want, 'g', -1, 64)),
 			Replay: map[string]any{"template": src, "a": va, "a_kind": ca.Kind, "b": vb, "b_kind": cb.Kind, "observed": string(obs.Out), "expected": strconv.FormatFloat(want, 'g', -1, 64)}})
 	}
+	// chains: an arithmetic modifier with a variable argument, then a rounding modifier written
+	// without arguments (in the same print or in the next one): each modifier sees its own arguments
+	cvals := []float64{0.5, -7.25, 10, 3, 27, 0.1, 0.3, 1.0 / 3, 2, 16, 1.75, -0.5, 4.5}
+	rmods := []struct {
+		name string
+		f    func(float64) float64
+	}{{"round", math.Round}, {"ceil", math.Ceil}, {"floor", math.Floor}}
+	for i := 0; i < n/4; i++ {
+		op := arithOps[7+rng.Intn(4)] // add sub mul div
+		rm := rmods[rng.Intn(3)]
+		ca, cb, cc := numCarriers[rng.Intn(len(numCarriers))], numCarriers[rng.Intn(len(numCarriers))], numCarriers[rng.Intn(len(numCarriers))]
+		for !strings.Contains(cc.Kind, "float") {
+			cc = numCarriers[rng.Intn(len(numCarriers))] // the rounding family works on floats (an integer is its own rounding)
+		}
+		va, vb, vc := cvals[rng.Intn(len(cvals))], cvals[rng.Intn(len(cvals))], cvals[rng.Intn(len(cvals))]
+		ctx := heldOrNew(rng)
+		fa, fb, fc := ca.Set(ctx, "a", va), cb.Set(ctx, "b", vb), cc.Set(ctx, "c", vc)
+		paren := []string{"", "()"}[rng.Intn(2)]
+		var src string
+		var want []float64
+		if rng.Bool() {
+			src = fmt.Sprintf("{%%= a|%s(b)|%s%s %%}", op.Name, rm.name, paren)
+			want = []float64{rm.f(op.F(fa, fb))}
+		} else {
+			src = fmt.Sprintf("{%%= a|%s(b) %%};{%%= c|%s%s %%}", op.Name, rm.name, paren)
+			want = []float64{op.F(fa, fb), rm.f(fc)}
+		}
+		key, po := tplKey(src, false)
+		res.Evaluations++
+		res.Hist("arith:chain:" + rm.name)
+		if po.ErrClass() != "OK" {
+			continue
+		}
+		obs := Render(key, ctx)
+		parts := strings.Split(string(obs.Out), ";")
+		ok := obs.ErrClass() == "OK" && len(parts) == len(want)
+		for k := 0; ok && k < len(want); k++ {
+			got, perr := strconv.ParseFloat(parts[k], 64)
+			ok = perr == nil && (got == want[k] || (math.IsNaN(got) && math.IsNaN(want[k])))
+		}
+		if ok {
+			res.Distinct(src + ca.Kind + cb.Kind + fmt.Sprint(va, vb, vc))
+			continue
+		}
+		res.OracleFails++
+		res.AddViolation(&Violation{Kind: "failing-input", Class: "arith:chain:" + rm.name,
+			What:   fmt.Sprintf("%s with a=%v (%s) b=%v (%s) c=%v (%s): prints %q (%s %s) but the modifiers applied one after the other give %v", src, va, ca.Kind, vb, cb.Kind, vc, cc.Kind, obs.Out, obs.ErrClass(), obs.Err, want),
+			Replay: map[string]any{"template": src, "a": va, "a_kind": ca.Kind, "b": vb, "b_kind": cb.Kind, "c": vc, "c_kind": cc.Kind, "observed": string(obs.Out), "expected": fmt.Sprint(want)}})
+	}
 	if err := runArithModel(o, res, mobs); err != nil {
 		res.InfraError = err.Error()
 	}
@@ -501,7 +549,7 @@ func runArithModel(o *Options, res *Result, mobs []arithObs) error {
 	if err := os.WriteFile(file, []byte(sb.String()), 0o644); err != nil {
 		return err
 	}
-	out, err := exec.Command("timeout", "1200", "coqc", "-Q", o.CoqDir, "DT", "-Q", dir, "AR", file).CombinedOutput()
+	out, err := coqcCmd("1200", "-Q", o.CoqDir, "DT", "-Q", dir, "AR", file).CombinedOutput()
 	if err != nil {
 		return fmt.Errorf("coqc on %s: %v\n%s", file, err, tail(string(out), 1200))
 	}
